@@ -30,6 +30,7 @@ import jsonpath
 from jpsim import core
 from jpsim import gen_json
 from jpsim import gen_query
+from jpsim import tripwire
 from jpsim.core import Ctx
 from jpsim.core import Violation
 from jpsim.fs import SimFile
@@ -71,14 +72,15 @@ ASSUMPTIONS = [
 ]
 PROBES = [
     "wildcard_x_string", "slice_x_string", "filter_x_string", "descendant_x_scalar", "index_x_object",
-    "async_text_or_stream_document", "compound_intersect_async_store", "cancel_landed_in_getter", "error_parity_case", "in_flight_ge_3",
+    "filter_raised_type_error", "async_text_or_stream_document", "compound_intersect_async_store", "cancel_landed_in_getter", "error_parity_case", "in_flight_ge_3",
 ]
 
 ENTRIES = [
     "module.findall_async", "module.finditer_async", "env.findall_async", "env.finditer_async",
     "compiled.findall_async", "compiled.finditer_async",
 ]
-_SCRATCH_ENV = jsonpath.JSONPathEnvironment()
+_SCRATCH_ENV = tripwire.register(jsonpath.JSONPathEnvironment())
+tripwire.register(jsonpath.DEFAULT_ENV)  # a constant, stateless addition to the module-level environment
 
 
 def generate(seed: int, config: str, tier: str) -> Dict[str, Any]:
@@ -97,6 +99,8 @@ def generate(seed: int, config: str, tier: str) -> Dict[str, Any]:
     opts["p_ctx"] = 0.25 if ctxdoc is not None else 0.0
     if ctxdoc is not None:
         opts["p_ext"] = max(opts["p_ext"], 0.15)
+    if rng.random() < 0.15:
+        opts["p_trip"] = 0.2  # filters that die with JSONPathTypeError at evaluation time (jpsim/tripwire.py)
     queries: List[str] = []
     for _ in range(rng.randint(2, 6)):
         d = rng.choice(docs)
@@ -224,9 +228,9 @@ def execute(spec: Dict[str, Any], ctx: Ctx) -> None:
         ctx.count("fault.storeerr.configured")
     docs_w = [wrap(copy.deepcopy(d), store, w["mode"], w["depths"], 0, f"d{i}") for i, (d, w) in enumerate(zip(plan["docs"], plan["wraps"]))]
     fctx = plan["ctx"]
-    env = jsonpath.JSONPathEnvironment(
+    env = tripwire.register(jsonpath.JSONPathEnvironment(
         filter_caching=bool(knobs.get("filter_caching", True)), well_typed=bool(knobs.get("well_typed", True))
-    )
+    ))
     ctx.state("env", "caching" if knobs.get("filter_caching", True) else "nocache", "typed" if knobs.get("well_typed", True) else "untyped")
     texts = plan["queries"]
     compiled = [env.compile(t) for t in texts]
@@ -283,6 +287,8 @@ def execute(spec: Dict[str, Any], ctx: Ctx) -> None:
                 refs[key] = sync_ref(*key)
                 if refs[key].exc:
                     ctx.count("probe.error_parity_case")
+                if refs[key].exc == "JSONPathTypeError":
+                    ctx.count("probe.filter_raised_type_error")
     for n, (ci, ji, job) in enumerate(jobs_flat[:2]):
         _stage_states(ctx, compiled[job["q"] % len(texts)], docs_w[job["d"] % len(docs_w)], fctx)
     total_work = sum(refs[rkey(j)].fetches + len(refs[rkey(j)].ms) + 1 for _, _, j in jobs_flat)
